@@ -4,14 +4,23 @@
 pub mod common;
 pub mod r#gen;
 pub mod dag;
+pub mod driver;
 pub mod model;
+pub mod p_crash;
 pub mod p_diff;
 pub mod p_files;
+pub mod p_index;
 pub mod p_matchers;
 pub mod p_merge;
 pub mod p_opheads;
+pub mod p_opmerge;
 pub mod p_paths;
+pub mod p_revset;
+pub mod p_stores;
+pub mod p_rewrite;
 pub mod p_tree;
+pub mod p_view;
+pub mod reader;
 
 use common::Ctx;
 
@@ -25,7 +34,20 @@ pub fn dispatch(ctx: &Ctx) -> Option<i32> {
         "C04" => p_files::run_c04(ctx),
         "C05" => p_files::run_c05(ctx),
         "C07" => p_tree::run_c07(ctx),
+        "C08" => p_rewrite::run_c08(ctx),
+        "C09" => p_rewrite::run_c09(ctx),
+        "C10" => p_view::run_c10(ctx),
+        "C11" => p_view::run_c11(ctx),
+        "C12" => p_opmerge::run_c12(ctx),
+        "C13" => p_opmerge::run_c13(ctx),
         "C14" => p_opheads::run_c14(ctx),
+        "C15" => p_crash::run_c15(ctx),
+        "C16" => p_stores::run_c16(ctx),
+        "C17" => p_stores::run_c17(ctx),
+        "C18" => p_index::run_c18(ctx),
+        "C19" => p_revset::run_c19(ctx),
+        "C20" => p_index::run_c20(ctx),
+        "C39" => p_revset::run_c39(ctx),
         "C30" => p_matchers::run_c30(ctx),
         "C31" => p_matchers::run_c31(ctx),
         "C32" => p_paths::run_c32(ctx),
